@@ -241,17 +241,14 @@ def finding_key(o, clause):
     c, out = o["in"], o["out"]
     exc = out["fwd"]["raised"] or out["rev"]["raised"]
     msg = out["fwd"].get("msg") or out["rev"].get("msg") or ""
-    # scikit-learn's refusals of a single label column: top_k_accuracy_score / jaccard_score(average="samples") / log_loss
-    binary = any(t in msg for t in ("is binary while y_score is 2d", "Samplewise metrics are not available",
-                                    "y_true contains only one label"))
-    if c["C"] == 1 and binary:
-        what = "vocab1"
-    elif c["task"] in ("sec", "sed") and any(len(m) == 0 for m in c["clips"]):
-        what = "emptyclip"
-    else:
-        what = "other"
+    if c["C"] == 1 and exc == "ValueError":
+        # scikit-learn refusing a single label column, by the routine that refuses
+        if c["task"] in ("cc", "sec", "sed") and "is binary while y_score is 2d" in msg:
+            return "Evaluates/top3/ValueError/vocab1"            # top_k_accuracy_score in metrics.top_3_accuracy
+        if c["task"] == "cml" and ("Samplewise metrics are not available" in msg or "y_true contains only one label" in msg):
+            return "Evaluates/cml/ValueError/vocab1"             # jaccard_score(average="samples") / log_loss
+    what = "emptyclip" if c["task"] in ("sec", "sed") and any(len(m) == 0 for m in c["clips"]) else "other"
     return f"Evaluates/{c['task']}/{exc}/{what}"
-
 
 MANIFEST = {
     "text": ("Metrics.tla defines accuracy, balanced accuracy, top-3 accuracy, true-class probability, average precision "
